@@ -5,7 +5,7 @@ wt=/tmp/reconfirm-wt
 git -C /repo worktree remove --force $wt 2>/dev/null
 git -C /repo worktree add -q --detach $wt HEAD || exit 9
 cd $wt
-for d in /verif/seeded/C*-[ab]; do
+for d in /verif/seeded/C*-[ab] /verif/seeded/C*-[ab]-r2; do
   s=$(basename $d)
   git checkout -q -- . ; git clean -fdq
   RACE=""; grep -qi "\-race" $d/notes.md $d/demo_test.go 2>/dev/null && RACE="-race"
